@@ -468,7 +468,7 @@ def mirror_covariance_matrix(cov_mat):
         n_subaps (ndarray): Number of sub-aperture in each WFS
     """
 
-    return numpy.bitwise_or(cov_mat.view("int32"), cov_mat.T.view("int32")).view("float32")
+    return numpy.tril(cov_mat) + numpy.tril(cov_mat, -1).T
 
 def create_tomographic_covariance_reconstructor(covariance_matrix, n_onaxis_subaps, svd_conditioning=0):
     """
